@@ -48,6 +48,11 @@ class Property:
     def is_nontrivial(self, case, impl_out):
         return True
 
+    def py_oracle(self, case, impl_out):
+        """optional implementation-level oracle evaluated in python on the harness observation:
+        return None (no opinion), "OK", "SKIP …" or "FAIL …"."""
+        return None
+
     def known(self, case, out, findings):
         """return the id of the known finding this failing case is an instance of, or None"""
         return None
@@ -114,6 +119,15 @@ def run(prop, tier, seed):
         disagreements.append({"case": None, "impl": None, "model": "driver does not build"})
 
     prop_out = core.run_prop([c.line for c in prop_cases])
+    impl_by_line = {c.line: o for c, o in zip(corr_cases, impl_out)}
+    for i, c in enumerate(prop_cases):
+        if prop_out[i].startswith("SKIP"):
+            obs = impl_by_line.get(c.line)
+            if obs is None:
+                obs = core.run_impl([c.line])[0]
+            r = prop.py_oracle(c, obs)
+            if r is not None:
+                prop_out[i] = r
     failures, known_hits, skipped = [], {}, 0
     for c, o in zip(prop_cases, prop_out):
         if o == "OK" or o.startswith("OK "):
@@ -137,7 +151,7 @@ def run(prop, tier, seed):
     if failures:
         c, o = failures[0]
         c = prop.shrink(c, lambda cc: _still_fails(prop, cc, findings))
-        o2 = core.run_prop([c.line])[0]
+        o2 = _prop_all(prop, [c])[0]
         path = core.write_replay(pid, "input", {
             "property": pid, "kind": "failing-input", "request": c.line, "prop_result": o2 or o,
             "impl_observation": core.run_impl([c.line])[0][:4000],
@@ -157,7 +171,7 @@ def run(prop, tier, seed):
         for s in budget_seeds:
             extra += [c for c in prop.gen(random.Random(s), tier) if c.prop]
         extra = _uniq(extra)
-        outs = core.run_prop([c.line for c in extra])
+        outs = _prop_all(prop, extra)
         for c, o in zip(extra, outs):
             if o.startswith("OK") or o.startswith("SKIP"):
                 continue
@@ -170,7 +184,7 @@ def run(prop, tier, seed):
             c = prop.shrink(c, lambda cc: _still_fails(prop, cc, findings))
             path = core.write_replay(pid, "input", {
                 "property": pid, "kind": "failing-input", "request": c.line,
-                "prop_result": core.run_prop([c.line])[0],
+                "prop_result": _prop_all(prop, [c])[0],
                 "broken": proof_problems, "first_disagreement": disagreements[:1],
             })
             violation = (path, "")
@@ -219,8 +233,20 @@ def run(prop, tier, seed):
     return 0
 
 
+def _prop_all(prop, cases):
+    outs = core.run_prop([c.line for c in cases])
+    need = [i for i, o in enumerate(outs) if o.startswith("SKIP")]
+    if need:
+        obs = core.run_impl([cases[i].line for i in need])
+        for i, ob in zip(need, obs):
+            r = prop.py_oracle(cases[i], ob)
+            if r is not None:
+                outs[i] = r
+    return outs
+
+
 def _still_fails(prop, case, findings):
-    o = core.run_prop([case.line])[0]
+    o = _prop_all(prop, [case])[0]
     if o.startswith("OK") or o.startswith("SKIP"):
         return False
     return prop.known(case, o, findings) is None
@@ -237,5 +263,5 @@ def replay(prop, path):
     print("request:", req[:500])
     print("impl   :", core.run_impl([req])[0][:2000])
     print("model  :", core.run_model([req])[0][:2000])
-    print("prop   :", core.run_prop([req])[0][:2000])
+    print("prop   :", _prop_all(prop, [Case(req)])[0][:2000])
     return 0
